@@ -3,7 +3,8 @@
    One action per bcast.HoldLock region:
      Add id ok      value-added callback (ok = the value is a LookupRpcServiceValue)
      Remove id      value-removed callback
-     IdleCb b e     idle callback (b = isIdle, e = resErrs contains a non-nil error)
+     IdleCb b e r   idle callback (b = isIdle, e = resErrs contains a non-nil error,
+                    r = the first such error is not context.Canceled)
      Dispose        directive-disposed callback
      Drain          one iteration of the send loop (take the queue, then send it) *)
 From Bifrost Require Import Lib.Base Lib.StrOps Lib.Varint.
@@ -13,7 +14,7 @@ Inductive resp := RExists | RRemoved | RIdle (b : bool).
 Inductive action :=
 | Add (id : Z) (ok : bool)
 | Remove (id : Z)
-| IdleCb (is_idle has_err : bool)
+| IdleCb (is_idle has_err real : bool)
 | Dispose
 | Drain.
 
@@ -21,6 +22,7 @@ Record st := mkSt {
   vals : list Z;          (* keys of the vals map *)
   idle : bool;            (* resIdle *)
   res_err : bool;         (* resErr != nil *)
+  res_real : bool;        (* resErr != context.Canceled (resErr keeps the FIRST error) *)
   disposed : bool;
   queue : list resp;      (* sendQueue *)
   sent : list resp;       (* what strm.Send has been called with *)
@@ -28,15 +30,15 @@ Record st := mkSt {
   woken : bool            (* the wait channel the send loop holds has been closed by a broadcast() *)
 }.
 
-Definition init : st := mkSt [] false false false [] [] 0%nat false.
+Definition init : st := mkSt [] false false false false [] [] 0%nat false.
 
 Definition memz (id : Z) (l : list Z) : bool := existsb (Z.eqb id) l.
 Definition delz (id : Z) (l : list Z) : list Z := filter (fun x => negb (Z.eqb id x)) l.
 
-Definition set_vals (s : st) v := mkSt v (idle s) (res_err s) (disposed s) (queue s) (sent s) (result s) (woken s).
+Definition set_vals (s : st) v := mkSt v (idle s) (res_err s) (res_real s) (disposed s) (queue s) (sent s) (result s) (woken s).
 (* append to sendQueue and broadcast(); nothing queued = no broadcast *)
 Definition enq (s : st) (r : list resp) :=
-  mkSt (vals s) (idle s) (res_err s) (disposed s) (queue s ++ r) (sent s) (result s)
+  mkSt (vals s) (idle s) (res_err s) (res_real s) (disposed s) (queue s ++ r) (sent s) (result s)
        (match r with [] => woken s | _ => true end).
 
 (* step returns the new state and the responses appended to sendQueue by this region.
@@ -59,24 +61,25 @@ Definition step (s : st) (a : action) : st * list resp :=
       let v := delz id (vals s) in
       let out := if Nat.eqb (length v) 0 then [RRemoved] else [] in
       (enq (set_vals s v) out, out)
-  | IdleCb b e =>
+  | IdleCb b e real =>
       (* resErr set for the first time: broadcast *)
       let s1 := if negb (res_err s) && e
-                then mkSt (vals s) (idle s) true (disposed s) (queue s) (sent s) (result s) true else s in
+                then mkSt (vals s) (idle s) true real (disposed s) (queue s) (sent s) (result s) true else s in
       if Bool.eqb b (idle s1) then (s1, []) else
-      let s2 := mkSt (vals s1) b (res_err s1) (disposed s1) (queue s1) (sent s1) (result s1) (woken s1) in
+      let s2 := mkSt (vals s1) b (res_err s1) (res_real s1) (disposed s1) (queue s1) (sent s1) (result s1) (woken s1) in
       (enq s2 [RIdle b], [RIdle b])
   | Dispose =>
       if disposed s then (s, []) else
-      (mkSt (vals s) (idle s) (res_err s) true (queue s) (sent s) (result s) true, [])
+      (mkSt (vals s) (idle s) (res_err s) (res_real s) true (queue s) (sent s) (result s) true, [])
   | Drain =>
       if negb (woken s) then (s, []) else    (* parked on an open wait channel *)
       (* waitCh = getWaitCh(); currSendQueue = sendQueue; sendQueue = nil;
          if currIdle && currResErr != nil return it; send; if disposed return *)
-      if idle s && res_err s then
-        (mkSt (vals s) (idle s) (res_err s) (disposed s) [] (sent s) 1%nat false, [])
+      (* if currIdle && currResErr != nil && currResErr != context.Canceled { return currResErr } *)
+      if idle s && res_err s && res_real s then
+        (mkSt (vals s) (idle s) (res_err s) (res_real s) (disposed s) [] (sent s) 1%nat false, [])
       else
-        let s1 := mkSt (vals s) (idle s) (res_err s) (disposed s) [] (sent s ++ queue s)
+        let s1 := mkSt (vals s) (idle s) (res_err s) (res_real s) (disposed s) [] (sent s ++ queue s)
                        (if disposed s then 2%nat else 0%nat) false in
         (s1, [])
   end
